@@ -12,7 +12,7 @@ generator.  Each class lists its metamodel attributes in a fixed order with a *k
   obytes                    optional bytes
   lss:<C> / olss:<C>        language string set of class C
   node:<C> / onode:<C>      embedded object of class C (for 'Reference' either reference class)
-  list:<kind>               ordered collection
+  list:<kind>               ordered collection (list1: never empty)
   set:<kind>                unordered collection (canon sorts it)
   elems / elems_ordered     polymorphic submodel elements, unordered / ordered
   cls                       a SubmodelElement class object (type_value_list_element)
@@ -32,8 +32,8 @@ SME = REFERABLE + QUALIFIABLE + HAS_SEMANTICS + HAS_EXTENSION + HAS_DATASPEC
 
 META = {
     "Key": [("type", "enum:KeyTypes"), ("value", "str")],
-    "ExternalReference": [("key", "list:node:Key"), ("referred_semantic_id", "onode:Reference")],
-    "ModelReference": [("key", "list:node:Key"), ("referred_semantic_id", "onode:Reference")],
+    "ExternalReference": [("key", "list1:node:Key"), ("referred_semantic_id", "onode:Reference")],
+    "ModelReference": [("key", "list1:node:Key"), ("referred_semantic_id", "onode:Reference")],
     "AdministrativeInformation": [("version", "ostr"), ("revision", "ostr"), ("creator", "onode:Reference"),
                                   ("template_id", "ostr")] + HAS_DATASPEC,
     "EmbeddedDataSpecification": [("data_specification", "node:Reference"),
